@@ -81,6 +81,22 @@ def budget_table(v, len_call_bb):
                     walk(tt, max(lo, c + 1), hi, depth + 1)
                     walk(ft, lo, min(hi, c), depth + 1)
                 return
+            if info["kind"] == "int":
+                dt = canon(v, v.origin(t["discr"]))
+                if dt[0] == "call" and dt[1] == len_call_bb:
+                    pts = sorted(val for val, tgt in info["edges"] if val is not None)
+                    for val, tgt in info["edges"]:
+                        if val is not None and lo <= val <= hi:
+                            walk(tgt, val, val, depth + 1)
+                    # the remaining lengths, interval by interval
+                    cur_lo = lo
+                    for pnt in pts + [None]:
+                        seg_hi = hi if pnt is None else min(hi, pnt - 1)
+                        if cur_lo <= seg_hi:
+                            walk(t["otherwise"], cur_lo, seg_hi, depth + 1)
+                        if pnt is not None:
+                            cur_lo = max(cur_lo, pnt + 1)
+                    return
             leaves.append(((lo, hi), "other", None))
             return
         for s in v.succ[bb]:
